@@ -54,15 +54,40 @@ fn closures() -> Vec<(&'static str, Vec<&'static str>, usize)> {
         ("param-named-like-function", vec!["f = f => [a, f]"], 1),
         ("optional-param-named-like-function", vec!["f = (f?) => [a, f]"], 1),
         ("param-named-inputs", vec!["f = inputs => [a, inputs]"], 1),
+        // a self-call made after the body's do-block has bound a local named like a captured name: the
+        // inner activation starts from the captured value again
+        ("self-call-after-do-local", vec!["f = x => do {\n  n = if typeof(x) == \"number\" then x else 0\n  seen = a\n  a = [seen, 1]\n  return if n > 0 then f(n - 1) else [seen, b]\n}"], 1),
+        ("self-call-in-nested-do", vec!["f = x => do {\n  n = if typeof(x) == \"number\" then x else 0\n  b = [b]\n  return do {\n    t = a\n    a = 0\n    return if n > 0 then f(n - 1) else [t, b]\n  }\n}"], 1),
+        ("self-call-via-callback-after-do-local", vec!["f = x => do {\n  n = if typeof(x) == \"number\" then x else 0\n  seen = a\n  a = [seen, 1]\n  return if n > 0 then ([n - 1] via f)[0] else [seen, b]\n}"], 1),
     ]
 }
 
 /// Closures whose top-level value is also known absolutely: (closure name, expected value as an
 /// expression over a, b and the argument {A0})
-const ABSOLUTE: [(&str, &str); 3] = [
+const ABSOLUTE: [(&str, &str); 21] = [
     ("param-named-like-function", "[a, {A0}]"),
     ("optional-param-named-like-function", "[a, {A0}]"),
     ("param-named-inputs", "[a, {A0}]"),
+    // (the differential oracle "every context gives the top-level value" cannot see a closure that is
+    // wrong in the same way everywhere)
+    ("shorthand", "{a: a, k: b, x: {A0}}"),
+    ("curried", "[a, 7, {A0}, b]"),
+    ("nested-lambda", "[a, b, {A0}]"),
+    ("defined-in-do", "[a, b, {A0}]"),
+    ("do-shadowing-capture", "[[a, \"inner\"], {A0}]"),
+    ("captures-closure", "[[a, {A0}], b]"),
+    ("captures-closure-chain", "[a, [{A0}, b]]"),
+    ("body-do-local-named-a", "[a, {A0}, b]"),
+    ("inner-param-named-a", "[a, [{A0}, b]]"),
+    ("via-inside", "[[a, {A0}], [a, {A0}]]"),
+    ("data-capture-record", "[a, {A0}]"),
+    ("do-rebind-from-itself", "[a, {A0}]"),
+    ("nested-lambda-param-then-capture", "[[{A0}, b], a]"),
+    ("escaping-closure", "[{A0}, a, [a, b]]"),
+    ("do-local-then-later-capture-use", "[[{A0}], a, b]"),
+    ("self-call-after-do-local", "[a, b]"),
+    ("self-call-in-nested-do", "[a, [b]]"),
+    ("self-call-via-callback-after-do-local", "[a, b]"),
 ];
 
 const AB_POOL: [(&str, &str); 5] = [("1", "2"), ("\"s\"", "[1, 2]"), ("null", "{k: 1}"), ("[0]", "true"), ("max", "[abs, x => x]")];
@@ -219,7 +244,7 @@ fn check_closure(ctx: &Ctx, clo: &Clo, ab: usize) {
                 let want = s.run(&exp.replace("{A0}", a0));
                 if want.cmp_key() != top.cmp_key() {
                     ctx.violation(Violation {
-                        kind: "parameter-shadowing".into(),
+                        kind: if cname.contains("param-named") { "parameter-shadowing".into() } else { "absolute-value".into() },
                         class: cname.to_string(),
                         input: format!("{} ;; {}", lines.join(" ; "), call),
                         expected: want.cmp_key(),
@@ -438,7 +463,7 @@ pub fn run(ctx: &Ctx, replay: Option<&J>) -> i32 {
     finish(
         ctx,
         "model_checking",
-        "sessions = (definition-time values of a, b from a 4-pair pool) x 26 closure definitions (plain, curried, nested, defined in do-blocks, capturing closures and chains, self-recursive, shadowing locals / inner parameters, inputs, data captures); transitions = the same call f(args) (6-value argument pool) placed in 21 calling contexts (shadowing parameter / optional / rest parameter, do-locals, nested do, callbacks of via/map/into/reduce/where, f itself as callback, closure created under another a, record / list / conditional positions) after refused redefinitions of a and f; oracle = value at top level right after definition; arity: all 24 documented parameter-list shapes x argument counts 0..n+3 x plain / spread / mixed / into passing against a reference model; distinct = (closure, values, context, call) tuples",
+        "sessions = (definition-time values of a, b from the pool in `definition_value_pool`, incl. built-in function values) x the hand-written closure definitions counted in `closure_definitions` (plain, curried, nested, defined in do-blocks, capturing closures and chains, self-recursive, shadowing locals / inner parameters, inputs, data captures); transitions = the same call f(args) (6-value argument pool) placed in the calling contexts listed in `contexts` (shadowing parameter / optional / rest parameter, do-locals, nested do, callbacks of via/map/into/reduce/where, f itself as callback, closure created under another a, record / list / conditional positions) after refused redefinitions of a and f; oracle = value at top level right after definition, and for 21 closures also the value written out as an expression over a, b and the argument (a closure that is wrong in the same way everywhere); arity: all 24 documented parameter-list shapes x argument counts 0..n+3 x plain / spread / mixed / into passing against a reference model; distinct = (closure, values, context, call) tuples",
         true,
         Some((states, evals, evals)),
     )
